@@ -22,7 +22,7 @@ def t2_format(sx, S, prefix, rsv, oldlens, wipe):
 def t1_write(sx, hr, size, prefix, rsv, oldlens, lens, long):
     oldlen = sx.pick("oldlen", oldlens)
     w = worlds.T1World(sx, tuple(hr), size, prefix, [tuple(r) for r in rsv], oldlen,
-                       old_lt_80=long)
+                       old_lt_80=long, phys=512 if size == 296 else None)
     w.long_trick = long
     n = sx.pick("n", [x for x in lens_for(w.cap, lens + ["cap+1", "cap+8"], slack=8)])
     return ndefflow.roundtrip(sx, w, n, prop="C03")
@@ -63,7 +63,11 @@ T1 = [("topaz", (0x11, 0x48), 120, "", []),
       ("static-m", (0x11, 0x48), 120, "M", [(40, 8)]),
       ("topaz512", (0x12, 0x4C), 512, "LM", [(122, 6), (120, 2)]),
       ("dynamic", (0x12, 0x00), 512, "NLM", [(122, 6), (200, 9)]),
-      ("dynamic-bare", (0x12, 0x4C), 512, "", [])]
+      ("dynamic-bare", (0x12, 0x4C), 512, "", []),
+      # 257 / 258 bytes left for the NDEF TLV: both sides of the switch to the
+      # three-byte length format in the capacity calculation
+      ("dyn296:NNN", (0x13, 0x00), 296, "NNN", []),
+      ("dyn296:NN", (0x13, 0x00), 296, "NN", [])]
 
 
 def partitions(tier):
@@ -99,6 +103,8 @@ def partitions(tier):
                                                          emulated=emulated)))
     for name, hr, size, prefix, rsv in T1:
         lens = [0, 1, 5, "cap-1", "cap"] if size == 120 else [0, 3, 254, 255, "cap"]
+        if size == 296:
+            lens = [253, 254, 255, 256, "cap"]
         parts.append(dict(name="t1:%s:write" % name, fn="t1_write",
                           params=dict(hr=hr, size=size, prefix=prefix, rsv=rsv,
                                       oldlens=[0, 4], lens=lens, long=True)))
